@@ -92,9 +92,9 @@ def batch_script(draw):
         else:
             text = draw(st.sampled_from(['select (1', 'select 1)', 'CREATE PROCEDURE p AS DECLARE @x INT; SELECT @x', 'CREATE PROCEDURE q AS BEGIN IF @a = 1 SELECT 1; END',
                                          'begin', 'declare @v int', 'if x begin select 1 end', 'select case when a then 1', 'create function f() returns int begin return 1',
-                                         'insert into t values (1, (2', 'select 1', 'update t set a = 1', 'exec p 1, 2', 'use db']))
+                                         'insert into t values (1, (2', 'select 1', 'update t set a = 1', 'exec p 1, 2', 'use db', '[a(b]; select 2', '$$ ; $$ x', ':p; x', '?; y']))
         parts.append(text)
-        parts.append(draw(st.sampled_from([';', ';', '; ', ';\n', '\nGO\n', ';\nGO\n', ' GO ', '\ngo\n', ';\nGO 2\n', '\n', ' ; GO\n', '\nGo\n'])))
+        parts.append(draw(st.sampled_from([';', ';', '; ', ';\n', '; # \n', ' GO', '\nGO\n', ';\nGO\n', ' GO ', '\ngo\n', ';\nGO 2\n', '\n', ' ; GO\n', '\nGo\n'])))
     return ''.join(parts)
 
 
